@@ -212,8 +212,11 @@ Init == \E prefix \in Prefixes :
           /\ st = Run(St0, prefix, 1) /\ hist = prefix /\ left = Budget(prefix)
           /\ last = [op |-> [op |-> "none"], out |-> <<>>, pre |-> St0, ok |-> TRUE]
 
+\* C07: the connections are interchangeable, the first operation comes from connection 1
+FirstOps(S) == IF Mode = "C07" /\ hist = <<>> THEN {o \in S : o.c = 1} ELSE S
+
 Next == /\ left > 0
-        /\ \E o \in OpsAt(Len(hist)) :
+        /\ \E o \in FirstOps(OpsAt(Len(hist))) :
               LET r == Step(st, o) IN
               /\ st' = r.st /\ hist' = Append(hist, o) /\ left' = left - 1
               /\ last' = [op |-> o, out |-> r.out, pre |-> st, ok |-> OkStep(st, o, r.out, r.st)]
